@@ -55,6 +55,7 @@ func newConn(c net.Conn, s *Server) *Conn {
 	}
 
 	sc.init()
+	verifNewConn(sc)
 	return sc
 }
 
